@@ -52,9 +52,12 @@ CHECKS = {
  'C07': dict(
     text='Theorems (Coq): whenever the static scope stack describes the dynamic frame chain (chain_matches), a symbol resolved to distance k reads and writes exactly the binding '
          'dynamic lookup finds; the resolver computes the distance of the innermost recording scope; resolution only annotates (erasing the distances from the resolved form '
-         'gives the original form, all forms and scope stacks) and is idempotent. PARTIAL: preservation of chain_matches by the whole evaluator is not '
-         'proved; whole programs are decided by the differential check (resolved vs unresolved runs, exhaustive binder chains to depth 5).' + DIFF,
-    technique='Coq proof (resolution agrees with dynamic lookup under the chain invariant) + differential correspondence'),
+         'gives the original form, all forms and scope stacks) and is idempotent; T-res for a fragment (ResolveLet.v): for every program built from literals, variables, the '
+         'read-only operators, set and let nested to ANY depth, the resolved program and the program as written give the same outcome (value or error, and final state) for every '
+         'fuel, on every state whose global frame binds the start names -- the invariant "static scope stack describes the dynamic frame chain" is carried through every binder, '
+         'one congruence lemma per operator, induction on fuel. PARTIAL: functions/closures, define in nested scopes, eval and macros are outside that fragment (the known finding '
+         'lives there); those programs are decided by the differential check (resolved vs unresolved runs, exhaustive binder chains to depth 5).' + DIFF,
+    technique='Coq proof (resolution agrees with dynamic lookup under the chain invariant; whole-fragment agreement theorem for let/set programs by induction on fuel) + differential correspondence'),
  'C08': dict(
     text='Theorems (Coq, any state, any sub-evaluator returning literals unchanged): every rewrite rule of optimize (if/do/&&/||/+/* folding) is an equation of the evaluator: '
          'same value, same type, same state; folded operands are literals only; T-opt for a fragment, congruence included (OptRo.v): for every expression built from '
